@@ -1634,16 +1634,25 @@ class Engine:
     def sym_filter_comprehension(self, node):
         """[x for x in xs if cond(x)]: a duplicate-free-as-xs sublist; characterised by membership (ghost position function)"""
         g = node.generators[0]
-        if not (isinstance(node.elt, ast.Name) and isinstance(g.target, ast.Name) and node.elt.id == g.target.id):
-            raise Unsupported("filter comprehension whose element is not the loop variable")
         itv = self.ev(g.iter)
+        items_of = None
+        if type(itv).__name__ == "DictItems" and isinstance(g.target, ast.Tuple) and len(g.target.elts) == 2 \
+                and all(isinstance(e, ast.Name) for e in g.target.elts) and isinstance(node.elt, ast.Name) and node.elt.id == g.target.elts[0].id:
+            # [k for k, v in d.items() if cond(k, v)]: a filtered list of the keys; v is the value stored under k
+            items_of, itv = itv.d, itv.d
+        elif not (isinstance(node.elt, ast.Name) and isinstance(g.target, ast.Name) and node.elt.id == g.target.id):
+            raise Unsupported("filter comprehension whose element is not the loop variable")
         xs = self.as_sequence(itv)
         if len(xs.t.sorts()) != 1:
             raise Unsupported("filter comprehension over structured elements")
         srt = xs.t.sorts()[0]
         x = z3.Const(f"_fx{node.lineno}", srt)
         saved = dict(self.frame.env)
-        self.assign(g.target, x)
+        if items_of is not None:
+            self.assign(g.target.elts[0], x)
+            self.assign(g.target.elts[1], items_of.v.unflat([c[x] for c in items_of.comps]))
+        else:
+            self.assign(g.target, x)
         n_dec = len(self.decisions)
         j0 = z3.Int("_fj0")
         n_pc = len(self.pc)
